@@ -10,6 +10,7 @@ import CliUtils.Drv.Filters
 import CliUtils.Drv.Status
 import CliUtils.Drv.C16
 import CliUtils.Drv.C18
+import CliUtils.Drv.PruneStep
 /-
   Line-protocol driver.  stdin: one JSON object per line  {"d": domain, "i": input, "o": implementation output}
   stdout: one line per case that needs attention, then one summary line.
@@ -33,6 +34,7 @@ def handlers : List (String × Handler) := [
   ("readstatus", C17.handleReadStatus),
   ("graph", C14.handleGraph),
   ("depgraph", C14.handleDepgraph),
+  ("prunestep", PruneStep.handlePruneStep),
   ("policy", Filters.handlePolicy), ("depfilter", Filters.handleDepfilter),
   ("sys", SysD.handleSysFor "all"),
   ("sys-C01", SysD.handleSysFor "C01"), ("sys-C02", SysD.handleSysFor "C02"), ("sys-C03", SysD.handleSysFor "C03"),
